@@ -202,7 +202,7 @@ def header():
 class World:
     """One fresh node directory + managers; apply(ev, args) runs one call."""
 
-    def __init__(self, root, owners):
+    def __init__(self, root, owners, far=None):
         core.ensure_repo_on_path()
         from treadmill import endpoints, rulefile, vipfile, iptables
         from treadmill.services import network_service
@@ -216,8 +216,17 @@ class World:
         self.apps_dir = os.path.join(root, 'apps')
         self.rules_dir = os.path.join(root, 'rules')
         self.ep_dir = os.path.join(root, 'endpoints')
-        for d in (self.svc_dir, self.rsrc_dir, self.apps_dir, self.rules_dir):
+        for d in (self.svc_dir, self.rsrc_dir, self.apps_dir):
             os.makedirs(d)
+        if far:
+            # the databases themselves live elsewhere (another volume) and are reached through
+            # symbolic links, at another depth than their names under the treadmill root
+            for link, tail in ((self.rules_dir, 'r'), (self.vips_dir, 'v/w'), (self.ep_dir, 'e/f/g')):
+                phys = os.path.join(far, tail, os.path.basename(link))
+                os.makedirs(phys)
+                os.symlink(phys, link)
+        else:
+            os.makedirs(self.rules_dir)
         self.vipmgr = vipfile.VipMgr(CIDR, self.vips_dir, self.rsrc_dir)
         self.rulemgr = rulefile.RuleMgr(self.rules_dir, self.apps_dir)
         self.epmgr = endpoints.EndpointsMgr(self.ep_dir)
@@ -463,7 +472,10 @@ def replay(history, owners=('o1', 'o2', 'o3', 'o4', 'o5', 'o6')):
         if len(history) % 2 == 0:
             os.symlink(via, os.path.join(root, 'link'))
             via = os.path.join(root, 'link')
-        w = World(via, owners)
+        far = None
+        if len(history) % 3 == 1:
+            far = os.path.join(root, 'othervol')
+        w = World(via, owners, far)
         w.scratch = (root, os.path.realpath(root))
         lines = [dict(ev='Init', args=[], res='ok', exc='', h=-1, post=w.project())]
         with mock.patch.multiple(netdev, **w.net.patches()), \
